@@ -28,6 +28,31 @@ pub fn extra_bases() -> Vec<(String, String)> {
             "base_policy".into(),
             "party A;\npolicy Full {\n    hash: 0xABCDEF1234ABCDEF1234ABCDEF1234ABCDEF1234ABCDEF1234ABCDEF1234,\n    script: 0x4E4D01000033222220051200120011,\n}\npolicy Refd {\n    hash: 0xABCDEF1234ABCDEF1234ABCDEF1234ABCDEF1234ABCDEF1234ABCDEF1235,\n    ref: 0xABCDEF#0,\n}\ntx t(n: Int) {\n    input i {\n        from: Full,\n        min_amount: Ada(n),\n    }\n    collateral {\n        from: A,\n        min_amount: Ada(5),\n    }\n    output {\n        to: Refd,\n        amount: i - fees,\n    }\n    burn {\n        amount: AnyAsset(Full, \"X\", n),\n        redeemer: (),\n    }\n    cardano::withdrawal {\n        from: A,\n        amount: n,\n        redeemer: (),\n    }\n    cardano::plutus_witness {\n        version: 3,\n        script: 0x4E4D01,\n    }\n    cardano::treasury_donation {\n        coin: n,\n    }\n}\n".into(),
         ),
+        (
+            // definitions made of names: env vars in a policy and in an asset, both used by a transaction
+            "base_env_policy".into(),
+            "env {\n    token_policy: Bytes,\n    token_name: Bytes,\n}\nparty P;\npolicy Pol {\n    hash: token_policy,\n}\ntx t(q: Int) {\n    input src {\n        from: Pol,\n        min_amount: Ada(q),\n    }\n    output {\n        to: P,\n        amount: src - fees,\n    }\n    mint {\n        amount: AnyAsset(Pol, token_name, q),\n        redeemer: (),\n    }\n}\n".into(),
+        ),
+        (
+            // (refused today: an env var has no type an asset definition could check)
+            "base_env_asset".into(),
+            "env {\n    token_policy: Bytes,\n    token_name: Bytes,\n}\nparty P;\nasset Token = token_policy.token_name;\nasset Fixed = 0xABCDEF1234ABCDEF1234ABCDEF1234ABCDEF1234ABCDEF1234ABCDEF1234.token_name;\ntx t(q: Int) {\n    input src {\n        from: P,\n        min_amount: Ada(q) + Fixed(1),\n    }\n    output {\n        to: P,\n        amount: src - fees - Token(q),\n    }\n}\n".into(),
+        ),
+        (
+            // names that collide on purpose: parameters, locals and env vars named like record fields, an index named
+            // like a field, an asset and a party named like built-ins, nested constructors of two variant types
+            "base_shadow".into(),
+            "env {\n    m: Int,\n}\nparty tip_slot_owner;\nasset tip_slot = 0xABCDEF1234ABCDEF1234ABCDEF1234ABCDEF1234ABCDEF1234ABCDEF1234.\"T\";\ntype D {\n    n: Int,\n    m: Int,\n    k: Int,\n}\ntype Inner {\n    A { x: Int, },\n    B { y: Int, },\n}\ntype Outer {\n    A { i: Inner, },\n    B { d: D, },\n}\ntx t(xs: List<Int>, n: Int) {\n    locals {\n        k: n + 1,\n    }\n    input src {\n        from: tip_slot_owner,\n        min_amount: tip_slot(n),\n    }\n    output {\n        to: tip_slot_owner,\n        amount: src - fees,\n        datum: Outer::B {\n            d: D {\n                n: xs[n],\n                m: m,\n                k: k,\n            },\n        },\n    }\n    output {\n        to: tip_slot_owner,\n        amount: Ada(1),\n        datum: Outer::A {\n            i: Inner::B {\n                y: n,\n            },\n        },\n    }\n}\n".into(),
+        ),
+        (
+            "base_certs".into(),
+            "party A;\ntx t(n: Int) {\n    input i {\n        from: A,\n        min_amount: Ada(n),\n    }\n    output {\n        to: A,\n        amount: i - fees,\n    }\n    cardano::vote_delegation_certificate {\n        drep: 0x12345678,\n        stake: 0x87654321,\n    }\n    cardano::publish {\n        to: A,\n        amount: Ada(n),\n        version: 3,\n        script: 0x4E4D01,\n    }\n}".into(),
+        ),
+        (
+            // (refused today: the block is parsed but not supported further down)
+            "base_stake_delegation".into(),
+            "party A;\ntx u(n: Int) {\n    input i {\n        from: A,\n        min_amount: Ada(n),\n    }\n    output {\n        to: A,\n        amount: i - fees,\n    }\n    cardano::stake_delegation_certificate {\n        pool: 0xAB,\n        stake: 0xCD,\n    }\n}\n".into(),
+        ),
     ]
 }
 
@@ -199,6 +224,13 @@ impl Prop for C13 {
     }
 
     fn enumerate(&self, tier: Tier, sink: &mut Sink) {
+        // definitions that reach themselves through one mention: nothing grows, so they are judged like any program
+        // (refused, or lowerable)
+        for (name, src, m) in c12::cycle_shapes() {
+            if m == 1 {
+                sink.case(|| json!({"kind": name, "judge_cycle": true, "src": src}));
+            }
+        }
         for n in 1..=16usize {
             for p in [false, true] {
                 sink.case(|| json!({"kind": "local-chain", "length": n, "src": chain_source(n, p)}));
@@ -320,7 +352,7 @@ impl Prop for C13 {
             }
         };
         o.evals = 1;
-        if c12::has_reference_cycle(src) {
+        if c12::reference_cycle_can_grow(src) {
             // analysis cost explodes on self-referring locals / inputs: C12's open finding, not re-litigated here
             o.class("skipped-reference-cycle(C12)");
             return o;
